@@ -160,7 +160,14 @@ pub fn run_leg(cfg: &RunCfg, leg_idx: usize, leg: &Leg, stats: &mut Stats) -> Ou
                         // re-run the minimal case with a fresh observer to obtain trace and message
                         let mut obs = mk();
                         let mut tmp = Stats::default();
-                        match drive::run_case(&minimal, &opts, &mut *obs, &mut tmp) {
+                        let rerun = guard(|| drive::run_case(&minimal, &opts, &mut *obs, &mut tmp).map(|_| ()));
+                        let rerun = match rerun {
+                            Ok(r) => r,
+                            Err(p) => {
+                                return (stats, Some(Err(format!("harness panicked while re-running the shrunk case: {}", p))));
+                            }
+                        };
+                        match rerun {
                             Err(wf) if !wf.inconclusive => Some(Ok(Violation {
                                 replay: replay_json(&id, leg_name, &wf.fail, &minimal.start, &wf.trace, opts.profile, seed, shard),
                                 fail: wf.fail,
